@@ -1,9 +1,11 @@
 import ScVerif.C09.Codec
 import ScVerif.C08.Include
+import ScVerif.C08.Intercept
 import ScVerif.C08.Subscribe
 import ScVerif.C08.Shared
 import ScVerif.C08.SubscribeMany
 import ScVerif.C08.SubscribeSend
+import ScVerif.C08.SubscribeGc
 import ScVerif.C08.PipeBus
 import ScVerif.C08.Booking
 /-! Driver handler for C08.
@@ -31,6 +33,9 @@ that publishes several events answers them `;`-separated.
 mask keeps the first resp. second field and the stripped one reads `_`.
 `pull:<mask>:<equiv>:<0|1>` additionally configures an equivalence (`none`/`same`/`first`, applied to the
 masked old/new after include) and `WithUpdatesOnly` (no seed).
+`pull:<mask>:<equiv>:<0|1>:<none|lower>` additionally an id interceptor on the collection (`lower` =
+`strings.ToLower`): the ops carry the ids as the callers spell them, every write goes through `Act.canon`
+(`ScVerif/C08/Intercept.lean`); `mpull` takes it as `<equiv>+lower`.
 * `mpull <equiv> <n> (<pred> <mask> <updatesOnly 0|1> <at>){n} <op>*`
                                        the fan-out model (`ScVerif/C08/Shared.lean`): `n` subscribers on ONE
                                        collection, subscriber k joining (seed, `Listen`) just before the write
@@ -51,6 +56,11 @@ masked old/new after include) and `WithUpdatesOnly` (no seed).
                                        steps `ps` (sendStart: the oldest pending commit's Send copies the listener
                                        slice) and `pn` (sendNext: the event in flight is handed to the next listener
                                        of the copy) instead of `p` → as `msched`, then ` | pend=<n> flight=<0|1>`
+* `gsched <n> <pred>{n} <nBefore> <op>* <step>*`   `fsched` with the bus's listener slice, cancelled listeners and
+                                       `Bus.collect` (`ScVerif/C08/SubscribeGc.lean`): further steps `gc` (collect),
+                                       `x=<j>` (subscriber j's context is cancelled), `g=<j>` (slot j >= n: a ghost
+                                       pulls, registers and is cancelled at once) → as `fsched`, then
+                                       ` collects=<times collect ran> listeners=<b.listeners, `.`-separated>`
 * `lsched <n> <pred>{n} <nBefore> <op>* <step>*`   `msched` with LOSSY subscribers (`WithBackpressure(false)`) that read
                                        nothing before the end: what a subscriber is sent goes through the
                                        `mergeCollectionExcess` machine under every recv/emit pattern → per subscriber
@@ -154,22 +164,38 @@ def equivOf (e : String) : Option (Option (Option String → Option String → B
     | _, _ => false))
   else none
 
+/-- The id interceptors the harness configures (`WithIDInterceptor`): `none`, or `lower` = `strings.ToLower`
+(ids are ASCII). -/
+def icptOf (s : String) : Option (String → String) :=
+  if s = "none" then some id
+  else if s = "lower" then some String.toLower
+  else none
+
 structure PullOpts where
   proj : String → String
   equiv : Option (Option String → Option String → Bool)
   updatesOnly : Bool
+  canon : String → String := id
 
 /-- `pull` / `pull:<mask>` / `pull:<mask>:<equiv>:<updatesOnly 0|1>` -/
 def parseOpName? (name : String) (s : String) : Option PullOpts :=
-  if s = name then some ⟨id, none, false⟩
+  if s = name then some ⟨id, none, false, id⟩
   else match s.splitOn ":" with
-    | [n, m] => if n = name then (maskProj m).map (fun pr => ⟨pr, none, false⟩) else none
+    | [n, m] => if n = name then (maskProj m).map (fun pr => ⟨pr, none, false, id⟩) else none
     | [n, m, e, u] =>
       if n = name then do
         let pr ← maskProj m
         let eq ← equivOf e
         let uo ← parseFlag? u
-        pure ⟨pr, eq, uo⟩
+        pure ⟨pr, eq, uo, id⟩
+      else none
+    | [n, m, e, u, ic] =>
+      if n = name then do
+        let pr ← maskProj m
+        let eq ← equivOf e
+        let uo ← parseFlag? u
+        let cn ← icptOf ic
+        pure ⟨pr, eq, uo, cn⟩
       else none
     | _ => none
 
@@ -216,7 +242,7 @@ def handleBPull? (q n : String) (ops : List String) : Option String := do
   let ops ← ops.mapM parseAct?
   if n > ops.length then none
   let before := runActs 0 [] (ops.take n)
-  let o : PullOpts := ⟨id, none, false⟩
+  let o : PullOpts := ⟨id, none, false, id⟩
   let seedEvs := seedFrom 0 (sortById (itemSlice p before.1))
   pure (" ".intercalate (("seed=" ++ showChanges seedEvs) :: pullAfter p o before.1 (ops.drop n)))
 
@@ -275,10 +301,16 @@ def mpullLoop (E : Option (Option String → Option String → Bool)) (cfgs : Li
       mpullLoop E cfgs (j + 1) r.1 bus' (List.zipWith (fun l t => l ++ [t]) acc toks) as
 
 def handleMPull? (e n : String) (rest : List String) : Option String := do
+  -- `<equiv>` or `<equiv>+<interceptor>`
+  let (e, cn) ← match e.splitOn "+" with
+    | [e] => some (e, id)
+    | [e, ic] => (icptOf ic).map (fun cn => (e, cn))
+    | _ => none
   let eq ← equivOf e
   let n ← parseNat? n
   let (cfgs, ops) ← parseMSubs? n rest
   let acts ← ops.mapM parseAct?
+  let acts := acts.map (Act.canon cn)
   if !nondecreasing (cfgs.map (·.joinAt)) then none
   if cfgs.any (fun c => c.joinAt > acts.length) then none
   pure (" # ".intercalate ((mpullLoop eq cfgs 0 [] [] [] acts).map (" ".intercalate ·)))
@@ -375,6 +407,37 @@ def handleFSched? (n : String) (rest : List String) : Option String := do
   pure (" # ".intercalate ((preds.zip s.subs).map (showSubOf s.items)) ++ " | pend=" ++ toString s.pend.length
     ++ " flight=" ++ (if s.flight.isSome then "1" else "0"))
 
+/-- `g=<j>` (a ghost: subscriber slot `j` pulls - seed and `Listen` under the read lock - and its context is
+cancelled at once) is the three steps snapshot, listen, cancel -/
+def parseGSteps? (s : String) : Option (List (GStep String String)) :=
+  if s = "ps" then some [.sendStart]
+  else if s = "pn" then some [.sendNext]
+  else if s = "gc" then some [.collect]
+  else match s.splitOn "=" with
+    | ["c", op] => (parseOp? op).map (fun o => [GStep.commit o])
+    | ["d", i] => if i = "" then none else some [.deleteNow i]
+    | ["s", j] => (parseNat? j).map (fun j => [GStep.snapshot j])
+    | ["l", j] => (parseNat? j).map (fun j => [GStep.listen j])
+    | ["x", j] => (parseNat? j).map (fun j => [GStep.cancel j])
+    | ["g", j] => (parseNat? j).map (fun j => [GStep.snapshot j, .listen j, .cancel j])
+    | _ => none
+
+def handleGSched? (inPlace : Bool) (n : String) (rest : List String) : Option String := do
+  let n ← parseNat? n
+  if n + 1 > rest.length then none
+  let preds ← (rest.take n).mapM parsePred?
+  let nb ← parseNat? ((rest.drop n).headD "")
+  let toks := rest.drop (n + 1)
+  if nb > toks.length then none
+  let ops ← (toks.take nb).mapM parseOp?
+  let steps ← (toks.drop nb).mapM parseGSteps?
+  -- the slots `n …` are ghosts (subscribers without options that are cancelled as soon as they have registered)
+  let s := gsysRun inPlace preds (GSys.init (runOps 0 [] ops).1 (n + 16)) steps.flatten
+  pure (" # ".intercalate ((preds.zip s.subs).map (showSubOf s.items)) ++ " | pend=" ++ toString s.pend.length
+    ++ " flight=" ++ (if s.flight.isSome || s.gcDue then "1" else "0")
+    ++ " collects=" ++ toString s.collects
+    ++ " listeners=" ++ ".".intercalate (s.listeners.map toString))
+
 def handleLSched? (n : String) (rest : List String) : Option String := do
   let n ← parseNat? n
   if n + 1 > rest.length then none
@@ -411,12 +474,14 @@ def handle? (toks : List String) : Option String :=
   | "msched" :: n :: rest => handleMSched? n rest
   | "fsched" :: n :: rest => handleFSched? n rest
   | "lsched" :: n :: rest => handleLSched? n rest
+  | "gsched" :: n :: rest => handleGSched? false n rest
   | "bpull" :: q :: n :: rest => handleBPull? q n rest
   | op :: p :: n :: ops => do
     if let some o := parseOpName? "pull" op then
     let p ← parsePred? p
     let n ← parseNat? n
     let ops ← ops.mapM parseAct?
+    let ops := ops.map (Act.canon o.canon)   -- `id = c.idInterceptor(id)` at the top of every write
     if n > ops.length then none
     let before := runActs 0 [] (ops.take n)
     let seedEvs := if o.updatesOnly then [] else (seedFrom 0 (sortById (itemSlice p before.1))).map (maskChange o.proj)
@@ -426,6 +491,7 @@ def handle? (toks : List String) : Option String :=
     let p ← parsePred? p
     let n ← parseNat? n
     let ops ← ops.mapM parseAct?
+    let ops := ops.map (Act.canon o.canon)
     if n > ops.length then none
     let before := runActs 0 [] (ops.take n)
     let after := runActs 0 before.1 (ops.drop n)
